@@ -115,7 +115,32 @@ def extra_thunks():
         T.append((f"ne_p({d})", lambda v=v: ne_p(v)))
     for n in _VAR_NAMES:
         T.append((f"variable {n!r}", lambda n=n: NamedPredicate(name=n, v=False)))
+    from predicate.standard_predicates import is_json_p
+
+    T.append(("standard_predicates.is_json_p", lambda: is_json_p))  # its lazy references are bound at import and form a cycle
+    T.append(("lazy_p already evaluated (resolved)", _resolved_lazy))
+    T.append(("this_p-recursive predicate already evaluated", _resolved_this))
     return T
+
+
+def _resolved_lazy():
+    """A lazy reference that has been called (so its target is cached on the node): a kind without a rendering all the same."""
+    from predicate import is_int_p, is_list_of_p, lazy_p
+
+    zz_lazy_target = is_int_p | is_list_of_p(lazy_p("zz_lazy_target"))
+    zz_lazy_target([1, [2]])
+    q = lazy_p("zz_lazy_target")
+    q(3)
+    return q
+
+
+def _resolved_this():
+    from predicate import is_list_of_p, is_str_p
+    from predicate.this_predicate import ThisPredicate
+
+    zz_this_target = is_str_p | is_list_of_p(ThisPredicate())
+    zz_this_target(["a", ["b"]])
+    return zz_this_target
 
 
 def all_thunks():
@@ -139,12 +164,22 @@ UN = {"not": lambda a: ~a, "all": all_p, "any": any_p}
 BIN = {"and": lambda a, b: a & b, "or": lambda a, b: a | b, "xor": lambda a, b: a ^ b}
 
 
-def build(spec, thunks):
+def build(spec, thunks, memo=None):
+    """With a `memo` dict, structurally equal sub-specs become ONE shared object (the same node at several positions)."""
+    if memo is not None:
+        key = repr(spec)
+        if key not in memo:
+            memo[key] = build(spec, thunks, None) if spec[0] == "atom" else _build(spec, thunks, memo)
+        return memo[key]
+    return _build(spec, thunks, None)
+
+
+def _build(spec, thunks, memo):
     if spec[0] == "atom":
         return thunks[spec[1]]()
     if spec[0] in UN:
-        return UN[spec[0]](build(spec[1], thunks))
-    return BIN[spec[0]](build(spec[1], thunks), build(spec[2], thunks))
+        return UN[spec[0]](build(spec[1], thunks, memo))
+    return BIN[spec[0]](build(spec[1], thunks, memo), build(spec[2], thunks, memo))
 
 
 def show(spec):
@@ -316,10 +351,10 @@ def json_consts(p):
 # ---------------------------------------------------------------- one stream
 
 
-def run_stream(chk, name, specs, thunks, stats, keep_samples=None):
+def run_stream(chk, name, specs, thunks, stats, keep_samples=None, share=False):
     reqs, rows = [], []
     for spec in specs:
-        p = build(spec, thunks)
+        p = build(spec, thunks, {} if share else None)
         varnames = {}
         try:
             sxp = S.show(lift18(p, varnames))
@@ -404,6 +439,18 @@ def main(tier):
     memo = {}
     ex = [t for k in range(1, n_ex + 1) for t in trees_exact(k, REPRESENTATIVES[:n_rep], memo)]
     run_stream(chk, "json/exhaustive", ex, thunks, stats, samples)
+    # 2b. the same operator node OBJECT at several positions of one tree (built with a memo)
+    comps = [["and", ["atom", "var a False"], ["atom", "ne 1"]], ["not", ["atom", "ne 1"]], ["all", ["atom", "fn0"]], ["xor", ["atom", "truthy"], ["atom", "var a False"]],
+             ["or", ["atom", "eq 1"], ["atom", "ne 1"]], ["any", ["not", ["atom", "ne 1"]]]]
+    shared = []
+    for t in comps:
+        u = ["atom", "ne_p('a')"]
+        shared += [["or", t, ["not", t]], ["xor", t, t], ["and", ["all", t], ["any", t]], ["and", ["or", t, u], ["or", u, t]], ["not", ["and", t, t]],
+                   ["or", ["and", t, u], ["and", t, u]], ["all", ["xor", ["not", t], t]]]
+    for _ in range(300 if tier == "quick" else 5000):
+        t = random_tree(rng, rng.randint(2, 4), descs)
+        shared.append([rng.choice(list(BIN)), [rng.choice(list(UN)), t], [rng.choice(list(BIN)), t, ["not", t]]])
+    run_stream(chk, "json/shared-objects", shared, thunks, stats, samples, share=True)
     # 3. random trees over all atoms
     n_rnd, size = (6000, 5) if tier == "quick" else (150000, 6)
     rnd = [random_tree(rng, rng.randint(2, size), descs) for _ in range(n_rnd)]
